@@ -29,4 +29,6 @@ Done(inst, s) == s.avail = {}
 RewardM(inst, s, hist) == 0 - CycleLen(inst.D, hist)
 ConfState(inst, s, st) == st.cur = s.cur /\ st.i = s.i /\ st.first = s.first
 PadAction(inst) == 0
+\* forced first move of multi-start rollout j = 0, 1, ... (rl4co.utils.ops.select_start_nodes: node j mod N)
+StartNode(inst, j) == j % inst.N
 =============================================================================
